@@ -75,6 +75,10 @@ def main(argv):
         conf = tracefam.run_traces(tracefam.trace_inputs(args.tier, args.seed) if not args.replay else inputs, "drift", d, args.jobs)
         for x in conf["drift"]:
             rep.add_drift(x)
+        if not args.replay:
+            from . import designfam
+
+            designfam.attach(rep, PROP, args.tier, d, args.jobs)
     finally:
         tlc.cleanup(d)
     states = gen = 0
@@ -102,7 +106,8 @@ def main(argv):
             k = "%s/%s" % (s["id"]["dom"], s["build"])
             excluded[k] = excluded.get(k, 0) + 1
     rep.coverage.update({
-        "states": states, "transitions": gen, "traces_validated_against_impl": len(ok), "evaluations": len(inputs),
+        "states": states + rep.coverage.get("states", 0) + conf["states"], "transitions": gen + rep.coverage.get("transitions", 0) + conf["generated"],
+        "traces_validated_against_impl": len(ok) + conf["behaviours"], "evaluations": len(inputs),
         "distinct_nontrivial": len({json.dumps(s["id"], sort_keys=True) for s in nt}),
         "rule": "every closed CFG with <=5 nodes (all 89 655, the <=4-node part certified equal to ClosedCFG(N) by TLC, every graph checked against "
                 "the TLA+ domain predicate), seeded random 6-18 node closed CFGs, std-lib bytecode CFGs; each stage run separately; outcome judged by "
